@@ -504,6 +504,8 @@ func main() {
 	fmt.Fprintf(os.Stderr, "c17 driver: %d two-caller cases (%d with a hung caller; stops at 5)\n", n2, bad2)
 	nlo := multiPart(out, r, thorough)
 	fmt.Fprintf(os.Stderr, "c17 driver: %d split list-offsets cases (one sub-response cut)\n", nlo)
+	nmb := multiBroker(out, r, thorough)
+	fmt.Fprintf(os.Stderr, "c17 driver: %d split/merge cases on a three-broker cluster\n", nmb)
 	ntp, tslow := transportPath(out, r, thorough)
 	fmt.Fprintf(os.Stderr, "c17 driver: %d transport/writer end-to-end cases (slowest %v)\n", ntp, tslow.Round(time.Millisecond))
 	out.Flush()
